@@ -1,0 +1,15 @@
+//go:build verif
+
+package helper
+
+// VerifStageHook, when set by a verification harness, receives one event for every
+// pipeline stage (goroutine) that is wired, before the goroutine is started.
+var VerifStageHook func(kind string, par int, ins []any, outs []any, extra []int)
+
+// VerifStage reports the wiring of one pipeline stage: its kind, its integer
+// parameter, the channels it reads from and the channels it writes to.
+func VerifStage(kind string, par int, ins []any, outs []any, extra ...int) {
+	if h := VerifStageHook; h != nil {
+		h(kind, par, ins, outs, extra)
+	}
+}
